@@ -111,6 +111,10 @@ static void addB_plan(const std::string& tn, int l, int i, int d, int nfull, int
     int w0 = l * (i + 1) - 1, w1 = l * (i + 1) + 3;
     if (w1 > nfull) addB(tn, std::max(w0, nfull + 1), w1, d, R, M, unit);
     if (d == 1 && N > std::max(nfull, w1)) addB(tn, std::max(N - 1, std::max(nfull, w1) + 1), N, d, R, M, unit);
+    // the first sizes at which bulk_load builds more than one inner level above the leaves' parents (a root over several
+    // level-2 nodes): l*(i+1)^2 elements fill (i+1)^2 leaves
+    int f0 = l * (i + 1) * (i + 1) - 1, f1 = l * (i + 1) * (i + 1) + 2;
+    if (d == 1 && R == 1 && f0 > std::max(N, std::max(nfull, w1))) addB(tn, f0, f1, d, R, M, unit);
 }
 
 static void build_table(const std::string& set) {
@@ -122,6 +126,8 @@ static void build_table(const std::string& set) {
         add(tname(c01::MMAP, 1, 4, 5, 1), A(4, 4, 0, 0), 6);
         add(tname(c01::SET, 0, 4, 4, 0), A(6, 1, 1), 3);
         add(tname(c01::SET, 0, 4, 4, 0), S(25), 40);  // every tree shape with <= 25 keys (three levels, all rebalancing cases between siblings)
+        // leaf capacity above the inner capacity ((6,4), set): bulk_load sizes up to the first four-level tree
+        addB_plan(tname(c01::SET, 0, 6, 4, 0), 6, 4, 1, 3 * 6 * 5, 1, 4, 4);
         for (auto& c : qcaps) {
             std::string t[2];
             int k[2];
@@ -129,7 +135,7 @@ static void build_table(const std::string& set) {
             int N = 3 * c[0] * (c[1] + 1);
             for (int j = 0; j < 2; ++j) {
                 bool multi = (k[j] & 1) != 0;
-                addB(t[j], 0, N, 1, 1, 4, 4);
+                addB_plan(t[j], c[0], c[1], 1, N, 1, 4, 4);  // every n <= N and the window around the first four-level bulk_load size
                 addB_plan(t[j], c[0], c[1], 2, std::min(N, 45), 1, 4, 4);
                 if (multi) addB_plan(t[j], c[0], c[1], 2, std::min(N, 45), 2 * c[0] + 1, 2 * c[0] + 4, 4);
             }
